@@ -28,6 +28,8 @@ type mwSpec struct{ pkg, typ string }
 var middlewares = []mwSpec{{"stream", "Stream"}, {"trace", "Tracer"}, {"connlimit", "ConnLimiter"}, {"ratelimit", "TokenLimiter"}, {"cbreaker", "CircuitBreaker"}, {"roundrobin", "RoundRobin"}, {"roundrobin", "Rebalancer"}, {"buffer", "Buffer"}}
 
 func runC20(p *Prog, r *Report) {
+	// R14: a balancer that has no reason to intervene does not block: every lock of package roundrobin is released on every path (shared with C09.R3)
+	r.Floor("C20.R14", c09Pairing(p, r, "C20.R14", "roundrobin"), 3, "lock acquisitions in package roundrobin")
 	// R12: a limiter that is not at its limit stays out of the way on later requests too: counts are given back under the key they were taken with (shared with C04.R2); R13: side effects of a trip do not hold up requests (shared with C18.R4)
 	r.Borrow(p, runC04, map[string]string{"C04.R2": "C20.R12"}, nil)
 	r.Borrow(p, runC18, map[string]string{"C18.R4": "C20.R13"}, nil)
@@ -424,6 +426,26 @@ func c20Wrappers(p *Prog, r *Report) {
 			_, isParam := stripConv(st.Val).(*ssa.Parameter)
 			r.Check(isParam && uncond(fn, st), "C20.R3", "utils."+fn.Name()+": wraps the writer it is given", p.InstrPos(st), "w := parameter", "the constructor does not store its writer argument as the wrapped writer on every path (e.g. it unwraps a nested ProxyWriter): the outer recording writer is bypassed")
 		}
+	}
+	// every constructor gives the writer a logger: the fall-back branches of Hijack / CloseNotify (wrapped writer
+	// lacking the capability) log, and a nil logger turns "500 Internal Server Error" into a panic
+	if lf := fieldsOfType(pw, func(t types.Type) bool { return typeIs(t, "github.com/vulcand/oxy/v2/utils", "Logger") }); len(lf) == 1 {
+		nC := 0
+		for _, fn := range p.PkgFuncs("utils") {
+			obj := allocOf(fn, pw)
+			if obj == nil {
+				continue
+			}
+			nC++
+			okL := false
+			for _, st := range FieldStores(fn, pw, lf[0]) {
+				if _, _, base, ok := fieldOf(st.Addr); ok && stripConv(base) == ssa.Value(obj) && !isNilConst(st.Val) && uncond(fn, st) {
+					okL = true
+				}
+			}
+			r.Check(okL, "C20.R3", "utils."+fn.Name()+": gives the writer a logger", p.FuncPos(fn), "the logger field of the new writer is set on every path", "the constructor leaves the writer's logger nil: when the wrapped writer cannot be hijacked (or lacks CloseNotify) the fall-back branch logs through the nil interface and panics instead of reporting the error")
+		}
+		r.Floor("C20.R3", nC, 1, "constructors allocating a ProxyWriter")
 	}
 	if m := p.MethodOf(pw, "Header"); m != nil {
 		r.Fn(FName(m))
